@@ -49,3 +49,80 @@ def compare_with_model(img, data, model, nss):
         if v is not None:
             observed[ns] = v
     return O.compare_views(expected, observed)
+
+
+def rr_view(img, data, model, sus):
+    """Logical Rock Ridge tree recovered from SUSP/RRIP entries (CL/PL/RE followed)."""
+    t = img.trees.get('iso')
+    res = O.Resolver(model)
+    v = {'/': ('dir', None, None, None)}
+    problems = []
+    if t is None or t.root is None:
+        return v, problems
+
+    def walk(d, path, depth):
+        if depth > 64:
+            problems.append(('rrip/logical-tree-too-deep', d.off, path))
+            return
+        for rec in (d.children or [])[2:]:
+            info = sus.info.get(id(rec))
+            if info is None:
+                problems.append(('rrip/record-without-susp', rec.off, rec.path))
+                continue
+            if info.re:
+                continue            # relocated: appears at its logical place through CL
+            name = info.name if info.name is not None else rec.ident
+            try:
+                nm = name.decode('utf-8')
+            except UnicodeDecodeError:
+                nm = name.decode('latin-1')
+            p = (path if path != '/' else '') + '/' + nm
+            if p in v:
+                problems.append(('rrip/duplicate-logical-name', rec.off, p))
+            if info.cl is not None:
+                target = t.dir_extents.get(info.cl)
+                if target is None:
+                    problems.append(('rrip.4.1.5.1/cl-target-not-a-directory', rec.off, 'extent %d' % info.cl))
+                    continue
+                tinfo = sus.info.get(id(target))
+                if tinfo is None or not tinfo.re:
+                    problems.append(('rrip.4.1.5.3/cl-target-without-re', rec.off, p))
+                # PL of the relocated directory's '..' must point at the logical parent
+                ddot = (target.children or [None, None])[1]
+                dinfo = sus.info.get(id(ddot)) if ddot is not None else None
+                if dinfo is None or dinfo.pl != d.extent:
+                    problems.append(('rrip.4.1.5.2/pl-not-logical-parent', rec.off, p))
+                mode = tinfo.mode if tinfo is not None and tinfo.has_px else info.mode
+                v[p] = ('dir', None, None, mode)
+                walk(target, p, depth + 1)
+            elif rec.is_dir:
+                v[p] = ('dir', None, None, info.mode)
+                walk(rec, p, depth + 1)
+            elif info.is_symlink:
+                try:
+                    tg = info.target.decode('utf-8')
+                except UnicodeDecodeError:
+                    tg = info.target.decode('latin-1')
+                v[p] = ('symlink', None, tg, info.mode)
+            else:
+                b = file_bytes(data, rec)
+                key = ('bad', 'out-of-image') if b is None else res.key(b)
+                v[p] = ('file', key, None, info.mode)
+
+    walk(t.root, '/', 0)
+    return v, problems
+
+
+def udf_view(u, model):
+    res = O.Resolver(model)
+    v = {}
+    for path, e in u.entries.items():
+        if e.kind == 'dir':
+            v[path] = ('dir', None, None)
+        elif e.kind == 'symlink':
+            v[path] = ('symlink', None, e.target)
+        else:
+            b = u.entry_bytes(e)
+            key = ('bad', 'out-of-image') if b is None else res.key(b)
+            v[path] = ('file', key, None)
+    return v
